@@ -109,6 +109,8 @@ type exec struct {
 
 	onReload func(string)
 
+	oooCompactedThisEpoch bool
+
 	failed bool
 }
 
@@ -781,7 +783,7 @@ func Execute(t *testing.T, prop string, plan *Plan) (res *runner.Result) {
 		e.lsets = append(e.lsets, seriesLabels(i))
 	}
 	e.m = tsdbmodel.New(e.lsets)
-	e.m.KFRun = e.cfg.KF
+	e.m.KFRun = e.cfg.KF != ""
 	e.refs = make([]storage.SeriesRef, e.cfg.NSeries)
 	e.pendingCreator = make([]int, e.cfg.NSeries)
 	e.hist = make([]histgen.State, e.cfg.NSeries)
@@ -860,6 +862,11 @@ func dumpDB(db *tsdb.DB) {
 	h := db.Head()
 	fmt.Printf("DBG head min=%d max=%d minooo=%d maxooo=%d series=%d\n", h.MinTime(), h.MaxTime(), h.MinOOOTime(), h.MaxOOOTime(), h.NumSeries())
 	res, err := querySamples(blockSource{tsdb.NewRangeHead(h, math.MinInt64, math.MaxInt64)}, math.MinInt64, math.MaxInt64, allMatcher)
+	cres, cerr := queryChunks(db, math.MinInt64, math.MaxInt64, allMatcher)
+	fmt.Printf("DBG db chunk-level content err=%v\n", cerr)
+	for k, v := range cres {
+		fmt.Printf("DBG    %s %v\n", k, v)
+	}
 	fmt.Printf("DBG head in-order content err=%v\n", err)
 	for k, v := range res {
 		fmt.Printf("DBG    %s %v\n", k, v)
@@ -969,10 +976,10 @@ func (e *exec) doAdd(o Op) {
 	slotID := o.Slot%3 + 1
 	ms := e.m.Series[o.S]
 	kf := ""
-	if !ms.InHead && e.pendingCreator[o.S] != 0 && e.pendingCreator[o.S] != slotID {
+	if e.pendingCreator[o.S] != 0 && e.pendingCreator[o.S] != slotID {
 		// Known finding: another open appender created this series and has not logged its series record yet;
 		// samples committed now precede the series record in the WAL and are dropped on replay.
-		if !e.cfg.KF {
+		if e.cfg.KF != TagOrphan {
 			e.res.Count("skipped:wal-sample-before-series-record", 1)
 			return
 		}
@@ -989,12 +996,31 @@ func (e *exec) doAdd(o Op) {
 			}
 		}
 	}
-	if !e.cfg.KF && e.covered(o.S, t) {
+	if e.cfg.KF != tsdbmodel.TagTombHides && e.covered(o.S, t) {
 		// Known finding: a head tombstone hides samples appended into its range after the deletion.
 		e.res.Count("skipped:"+tsdbmodel.TagTombHides, 1)
 		return
 	}
-	if !e.cfg.KF && ms.MultiRef && e.curOOO > 0 {
+	if e.m.Epoch > 0 && e.oooCompactedThisEpoch && e.curOOO > 0 {
+		// Known finding: after a restart, an out-of-order compaction that empties chunks_head makes the chunk
+		// disk mapper restart its file sequence; new out-of-order chunks then get refs at or below the stale
+		// garbage-collection markers and are hidden from queries (and later dropped).
+		if l := ms.Last; l == nil || t <= l.T || s.m.W.Init && t < s.m.W.MinValid {
+			if e.cfg.KF != tsdbmodel.TagRefReuse {
+				e.res.Count("skipped:"+tsdbmodel.TagRefReuse, 1)
+				return
+			}
+		}
+	}
+	if e.cfg.KF != tsdbmodel.TagReplayOrder {
+		// Known finding: an in-order sample older than an out-of-order sample of the same series that is already
+		// in the WAL is dropped at replay (replay takes the out-of-order sample for the in-order one).
+		if l := ms.Last; (l == nil || t > l.T) && (!s.m.W.Init || t >= s.m.W.MinValid) && ms.MaxOOOHeadT() > t {
+			e.res.Count("skipped:"+tsdbmodel.TagReplayOrder, 1)
+			return
+		}
+	}
+	if e.cfg.KF != tsdbmodel.TagOOODupRef && ms.MultiRef && e.curOOO > 0 {
 		// Known finding: out-of-order chunks of a series with a duplicate series record are dropped at replay.
 		if l := ms.Last; l == nil || t <= l.T || s.m.W.Init && t < s.m.W.MinValid {
 			e.res.Count("skipped:"+tsdbmodel.TagOOODupRef, 1)
@@ -1041,6 +1067,10 @@ func (e *exec) doAdd(o Op) {
 	if !ms.InHead && e.pendingCreator[o.S] == 0 && !(w.OOOWindow == 0 && t < w.MinValid) {
 		// this call created the series in the head (even if the sample itself is refused)
 		e.pendingCreator[o.S] = slotID
+		if ms.GCd {
+			ms.MultiRef = true // re-created under a new ref while the old series record may still be in the WAL
+		}
+		ms.EverCreated = true
 	}
 	d := tsdbmodel.Judge(w, e.m.Series[o.S].Last, v, o.Rej)
 	out := classify(err)
@@ -1069,7 +1099,7 @@ func (e *exec) doAdd(o Op) {
 			return
 		}
 		s.m.Accept(o.S, v, o.Rej, kf)
-		if e.refs[o.S] != 0 && e.refs[o.S] != gotRef || !ms.InHead && ms.EverCreated && e.pendingCreator[o.S] == slotID {
+		if e.refs[o.S] != 0 && e.refs[o.S] != gotRef || ms.GCd {
 			// re-created under a new ref while the old series record may still be in the WAL
 			ms.MultiRef = true
 		}
@@ -1108,6 +1138,9 @@ func (e *exec) doCommit(i int) {
 		e.fail("commit-error", "commit-error", "op %d: Commit failed: %v", e.opIdx, err)
 		return
 	}
+	if e.m.Epoch > 0 && e.oooCompactedThisEpoch {
+		s.m.OOOTag = tsdbmodel.TagRefReuse
+	}
 	eff := e.m.Commit(s.m)
 	e.res.Count("commits", 1)
 	e.res.Count("samples_inorder", int64(eff.InOrder))
@@ -1134,14 +1167,25 @@ func (e *exec) creatorDone(i int) {
 
 // covered reports whether a head tombstone of series si currently covers t.
 func (e *exec) covered(si int, t int64) bool {
-	if e.refs[si] == 0 || e.db == nil {
+	if e.db == nil {
+		return false
+	}
+	ref := e.refs[si]
+	if ref == 0 {
+		app := e.db.Appender(context.Background())
+		if gr, ok := app.(storage.GetRef); ok {
+			ref, _ = gr.GetRef(e.lsets[si], e.lsets[si].Hash())
+		}
+		_ = app.Rollback()
+	}
+	if ref == 0 {
 		return false
 	}
 	tr, err := e.db.Head().Tombstones()
 	if err != nil {
 		return false
 	}
-	ivs, _ := tr.Get(e.refs[si])
+	ivs, _ := tr.Get(ref)
 	for _, iv := range ivs {
 		if t >= iv.Mint && t <= iv.Maxt {
 			return true
@@ -1196,6 +1240,9 @@ func (e *exec) syncPresence() {
 			ref, _ = gr.GetRef(s.Labels, s.Labels.Hash())
 		}
 		if ref == 0 {
+			if s.EverCreated {
+				s.GCd = true
+			}
 			s.InHead = false
 			s.Last = nil
 			s.OOOOpen = map[int64]bool{}
@@ -1275,12 +1322,12 @@ func (e *exec) step(o Op) {
 		if mint > maxt {
 			mint, maxt = maxt, mint
 		}
-		if !e.cfg.KF && e.pendingFor(matchFn(o.M)) {
+		if e.cfg.KF != tsdbmodel.TagTombHides && e.pendingFor(matchFn(o.M)) {
 			// Known finding: samples committed after the deletion into its range are hidden by the head tombstone.
 			e.res.Count("skipped:"+tsdbmodel.TagTombHides, 1)
 			break
 		}
-		if !e.cfg.KF && e.m.DeleteTouchesOOOHead(mint, maxt, matchFn(o.M)) {
+		if e.cfg.KF != tsdbmodel.TagDeleteMissesOOO && e.m.DeleteTouchesOOOHead(mint, maxt, matchFn(o.M)) {
 			// Known finding: Head.Delete does not reach samples held in the out-of-order head.
 			e.res.Count("skipped:"+tsdbmodel.TagDeleteMissesOOO, 1)
 			break
@@ -1439,6 +1486,7 @@ func (e *exec) afterCompaction() {
 		if ev.err == nil && ev.meta.Compaction.FromOutOfOrder() && ev.kind == "write" {
 			// the out-of-order head was written to blocks (and is garbage collected afterwards)
 			e.m.ClearOOOHead()
+			e.oooCompactedThisEpoch = true
 		}
 	}
 	e.blockEvents(evs)
@@ -1446,6 +1494,18 @@ func (e *exec) afterCompaction() {
 
 // blockEvents is the hook for the compaction monitors (C07/C08).
 func (e *exec) blockEvents(evs []compactEvent) {}
+
+// replayCutoff is the highest MaxTime of the in-order-class blocks (what Open uses as the head's minValidTime).
+func replayCutoff(db *tsdb.DB) int64 {
+	B := int64(math.MinInt64)
+	for _, b := range db.Blocks() {
+		c := b.Meta().Compaction
+		if !c.FromOutOfOrder() && !c.FromStaleSeries() && !c.FromSelectedSeries() && b.Meta().MaxTime > B {
+			B = b.Meta().MaxTime
+		}
+	}
+	return B
+}
 
 // tagAtRisk finds cells that only the head/WAL holds although an in-order-class block already ends after them
 // (known finding TagMixedBlock): a restart will drop them. It returns their number and tags them in m.
@@ -1491,7 +1551,16 @@ func tagAtRisk(db *tsdb.DB, m *tsdbmodel.Model) int {
 }
 
 func (e *exec) restart() {
-	if !e.cfg.KF {
+	if debugOn {
+		dumpDB(e.db)
+		filepath.Walk(e.dir, func(p string, fi os.FileInfo, err error) error {
+			if err == nil && !fi.IsDir() {
+				fmt.Printf("DBG file %s %d\n", p[len(e.dir):], fi.Size())
+			}
+			return nil
+		})
+	}
+	if e.cfg.KF != tsdbmodel.TagMixedBlock {
 		probe := e.m.Clone()
 		if tagAtRisk(e.db, probe) > 0 {
 			e.res.Count("skipped:"+tsdbmodel.TagMixedBlock, 1)
@@ -1500,6 +1569,7 @@ func (e *exec) restart() {
 	} else {
 		tagAtRisk(e.db, e.m)
 	}
+	e.m.PurgeDeletedBelow(replayCutoff(e.db))
 	if err := e.db.Close(); err != nil {
 		e.fail("close", "close-error", "op %d: Close failed: %v", e.opIdx, err)
 		e.db = nil
@@ -1524,6 +1594,7 @@ func (e *exec) restart() {
 	}
 	e.syncPresence()
 	e.m.Restarted()
+	e.oooCompactedThisEpoch = false
 	e.verify(e.db, e.m, e.m, "query-vs-model-after-restart", fmt.Sprintf("after restart at op %d", e.opIdx), math.MinInt64)
 	if len(e.res.Violations) > 0 {
 		e.failed = true
